@@ -573,7 +573,8 @@ class FlatLinearOperator(ScipyLinearOperator):
                 npc_vec.legs[0] = npc_vec.legs[0].to_LegCharge()
             return npc_vec[self._mask].to_ndarray()
         else:
-            npc_vec.itranspose([self.vec_label, 'charge'])
+            ch = npc_vec.get_leg_index('charge')  # (by position: `vec_label` may be None)
+            npc_vec.itranspose([1 - ch, ch])
             res = np.zeros([self.leg.ind_len], npc_vec.dtype)
             leg = self.leg
             for qinds, data in zip(npc_vec._qdata, npc_vec._data):
